@@ -38,7 +38,7 @@ def lockFacts : List MethodFact := [
   ⟨"Remove", true, true, true, false, ⟨false, false, []⟩, ⟨false, false, ["remove"]⟩⟩,
   ⟨"RemoveAll", true, true, true, false, ⟨false, false, []⟩, ⟨false, false, ["Lstat", "realPath", "remove"]⟩⟩,
   ⟨"Rename", true, true, true, false, ⟨false, false, []⟩, ⟨false, true, ["realPath", "tryBackup"]⟩⟩,
-  ⟨"Rollback", true, true, true, false, ⟨false, false, []⟩, ⟨true, false, ["tryRemoveBackupPaths", "tryRemoveBasePaths", "tryRestoreDirPaths", "tryRestoreFilePaths", "tryRestoreSymlinkPaths"]⟩⟩,
+  ⟨"Rollback", true, true, true, false, ⟨false, false, []⟩, ⟨true, true, ["tryRemoveBackupPaths", "tryRemoveBasePaths", "tryRestoreDirPaths", "tryRestoreFilePaths", "tryRestoreSymlinkPaths"]⟩⟩,
   ⟨"SetMap", true, true, true, false, ⟨false, false, []⟩, ⟨true, false, []⟩⟩,
   ⟨"Stat", true, false, false, false, ⟨false, false, []⟩, ⟨false, false, []⟩⟩,
   ⟨"Symlink", true, true, true, false, ⟨false, false, []⟩, ⟨false, true, ["realPath", "tryBackup"]⟩⟩,
